@@ -94,6 +94,10 @@ RuleNoNrdDuplicates(b, c) ==
 RuleUnique(b) == ~Dup(b.ins, Commit) /\ ~Dup(b.outs, OutIdent) /\ ~Dup(b.kerns, Ident)
 RuleCutThrough(b) ==   \* no commitment occurs twice among inputs and outputs together
   ~Dup(Map(b.ins, Commit) \o Map(b.outs, Commit), Ident)
+\* The two rules below are evaluated by the code as ONE batch call each over the whole output / kernel
+\* list (Output::batch_verify_proofs, TxKernel::batch_sig_verify): TxBalanceBatch.tla models the batch
+\* layer (every batch size, every position of the forged item) and TxBalanceState.tla the same two rules
+\* as the full-state validator applies them to the kernel MMR and the unspent outputs.
 RuleRangeProofs(b) == \A i \in 1..Len(b.outs) : b.outs[i].pf
 RuleSignatures(b) == \A i \in 1..Len(b.kerns) : b.kerns[i].sg
 RuleLockHeights(b, c) == \A i \in 1..Len(b.kerns) : b.kerns[i].kind = "hl" => b.kerns[i].lock <= c.height
